@@ -298,6 +298,82 @@ def Listener.run {Id : Type} (l : Listener Id) (evs : List (Ev Id)) : Listener I
 /-- `make_tls_identity`. -/
 def Listener.init {Id : Type} (i : Id) : Listener Id := { current := i, sessions := [] }
 
+/-! ### Returning clients: the session cache belongs to the configuration
+
+`make_server_config_from_mem` (`rustls.rs:58-77`) builds every `ServerConfig` with
+`ServerConfig::builder_with_provider(..)`, which gives it a **fresh** `session_storage`
+(`ServerSessionMemoryCache`), and penguin never touches that field: `reload_tls_identity` is
+`make_server_config(..)?` followed by `identity.store(Arc::new(new))` (`tls/mod.rs:167-177`, shape
+pinned by the extractor).  So every stored identity owns its own cache.  A client that keeps its
+`ClientConfig` (session store) across connections offers the ticket it got last; rustls resumes —
+no `CertificateRequest`, the client verifier is not consulted, the peer certificate the client sees
+is the one of the cached session — exactly when the ticket names a session in the cache of the
+configuration serving *this* connection (TRUSTED: rustls `server::tls13` / `tls12`), otherwise it
+falls back to a full handshake under that configuration.
+
+Caches are numbered in build order (`make_tls_identity` builds number 0); a ticket is the number of
+the cache holding the session. -/
+
+inductive HsKind where
+  /-- full handshake: both verifiers run as configured -/
+  | full
+  /-- resumption of a session found in the serving configuration's cache -/
+  | resumed
+  deriving DecidableEq, Repr
+
+structure RListener (Id : Type) where
+  /-- Content of the `ArcSwap`. -/
+  current : Id
+  /-- The session cache owned by that configuration. -/
+  cache : Nat
+  /-- Number of configurations built so far (= number of the next fresh cache). -/
+  built : Nat
+  /-- One entry per accepted connection: the identity it is served with and the handshake kind. -/
+  sessions : List (Id × HsKind)
+
+inductive REv (Id : Type) where
+  /-- `reload_tls_identity`; `none` = `make_server_config` failed (returns before `store`). -/
+  | reload (new : Option Id)
+  /-- A connection is accepted (`load_full()`); the client offers `ticket` (`none`: a client without
+      a remembered session). -/
+  | accept (ticket : Option Nat)
+
+/-- `make_tls_identity`. -/
+def RListener.init {Id : Type} (i : Id) : RListener Id :=
+  { current := i, cache := 0, built := 1, sessions := [] }
+
+/-- Is the offered ticket found in the cache of the configuration in the `ArcSwap`? -/
+def RListener.kindFor {Id : Type} (l : RListener Id) (ticket : Option Nat) : HsKind :=
+  if ticket = some l.cache then .resumed else .full
+
+def RListener.step {Id : Type} (l : RListener Id) : REv Id → RListener Id
+  | .reload (some n) => { l with current := n, cache := l.built, built := l.built + 1 }
+  | .reload none => l
+  | .accept t => { l with sessions := l.sessions ++ [(l.current, l.kindFor t)] }
+
+def RListener.run {Id : Type} (l : RListener Id) (evs : List (REv Id)) : RListener Id :=
+  evs.foldl RListener.step l
+
+/-- Forgetting the caches gives the listener model above. -/
+def RListener.toListener {Id : Type} (l : RListener Id) : Listener Id :=
+  { current := l.current, sessions := l.sessions.map (·.1) }
+
+def REv.forget {Id : Type} : REv Id → Ev Id
+  | .reload n => .reload n
+  | .accept _ => .accept
+
+/-- Every configuration in the `ArcSwap` was built (its cache number is below `built`). -/
+def RListener.WF {Id : Type} (l : RListener Id) : Prop := l.cache < l.built
+
+/-- Outcome of a connection accepted now from a client built as `cc`, asking for `name`, offering
+    `ticket`: a resumed session completes without either verifier running again; a full handshake
+    is `handshakeWith` against the configuration in force. -/
+def RListener.acceptOutcome (pki : Pki Cert Ca Name) (l : RListener (ServerConfig Cert Ca))
+    (cc : ClientConfig Cert Ca) (name : Name) (ticket : Option Nat) : Outcome :=
+  match l.kindFor ticket with
+  | .resumed => .ok
+  | .full => handshakeWith pki cc name l.current
+
 end Penguin.Tls
 
 /-! ### A concrete finite PKI (used by the driver `drv_tls` and by the non-vacuity examples)
